@@ -14,6 +14,19 @@ def run_one(sd):
         r = subprocess.run(['git', 'apply', os.path.join(sd, 'patch.diff')], cwd=tmp, capture_output=True, text=True)
         if r.returncode:
             return meta['id'], {'error': 'patch does not apply: ' + r.stderr.strip()[:200]}
+        tf = [a.split('=', 1)[1] for a in sys.argv if a.startswith('--transform=')]
+        if tf:
+            # the seeded change plus a whole-tree behaviour-preserving rewrite (sa/benign.py): must still be caught
+            sys.path.insert(0, VERIF)
+            from sa import benign
+            for dp, _dn, fns in os.walk(os.path.join(tmp, 'src')):
+                for fn in fns:
+                    if fn.endswith('.py'):
+                        fp = os.path.join(dp, fn)
+                        text = open(fp).read()
+                        for name in tf:
+                            text = benign.TRANSFORMS[name](text)
+                        open(fp, 'w').write(text)
         props = PROPS if '--all-props' in sys.argv else sorted(set([meta['property']] + meta.get('also_check', [])))
         res = {}
         for p in props:
@@ -44,7 +57,8 @@ def main():
         print(line[:300])
         if own not in caught:
             missed.append(sid)
-    json.dump(results, open(os.path.join(VERIF, 'seeded', 'MATRIX.json'), 'w'), indent=1, sort_keys=True)
+    if '--all-props' in sys.argv and not any(a.startswith('--transform=') for a in sys.argv):
+        json.dump(results, open(os.path.join(VERIF, 'seeded', 'MATRIX.json'), 'w'), indent=1, sort_keys=True)
     print('missed by own property check:', missed)
     return 0
 
